@@ -485,4 +485,38 @@ Section Heartbeat.
         apply hb_rel_after; try reflexivity; try assumption. now left.
       + intros sn Hsn. now apply hb_partial_frag.
   Qed.
+  (* the base of the ACKNACK is the proxy's ack base after the HEARTBEAT, and everything below it is
+     RECORDED (more than the property asks for: base_truthful only needs DECLARED) *)
+  Lemma hb_sns_base b n m : hb_sns st w p2 missing = (b, n, m) -> b = p_base p2.
+  Proof.
+    unfold hb_sns. destruct hb_first_le as [_ Hb1]. destruct hb_missing_shape as [[E _]|(l & E & Hl)]; rewrite E.
+    - intros H. now inversion H.
+    - assert (Hinc : incr_from (p_base p2) (filter (fun s0 => negb (is_partial st w s0)) (hb_window (p_base p2 :: l))) = true).
+      { apply incr_from_filter, hb_window_incr. rewrite <- E. apply missing_incr. }
+      destruct (fbs_spec _ _ Hb1 Hinc) as (n' & m' & E' & _). rewrite E'. intros H. now inversion H.
+  Qed.
+
+  Lemma nackfrags_no_acknack partial : forall cnt w' b n m c,
+    ~ In (AckNack w' b n m c) (fst (nackfrags st w partial cnt)).
+  Proof.
+    induction partial as [|sn rest IH]; intros cnt w' b n m c; cbn [nackfrags]; [intros []|].
+    destruct (missing_frags st w sn) as [|f0 fl]; [apply IH|].
+    destruct (from_base_and_set f0 (f0 :: fl)) as [[b0 n0] m0]. cbn [fst]. intros [H|H]; [discriminate|].
+    now apply IH in H.
+  Qed.
+
+  Lemma hb_ack_base w' b n m c :
+    In (OReply (AckNack w' b n m c)) (snd (handle_heartbeat true st w p first last count final)) ->
+    b = p_base p2 /\ forall x, x < b -> recorded s1 x = true.
+  Proof.
+    unfold handle_heartbeat. destruct (Z.leb_spec count (p_hb p)) as [|_]; [lia|].
+    fold p2. fold last_chk. fold missing.
+    destruct (negb (match missing with [] => true | _ => false end) || negb final).
+    - destruct (hb_sns st w p2 missing) as [[b0 n0] m0] eqn:Esns. cbn [snd].
+      intros [H|H]; [discriminate|]. apply in_app_or in H as [H|[H|[]]].
+      + apply in_map_iff in H as (r & Hr & Hin). inversion Hr; subst r. now apply nackfrags_no_acknack in Hin.
+      + injection H as _ Hb _ _ _. apply hb_sns_base in Esns. rewrite <- Hb, Esns. split; [reflexivity|].
+        intros x Hx. now apply hb_below_known.
+    - cbn [snd]. intros [H|[]]. discriminate.
+  Qed.
 End Heartbeat.
